@@ -10,6 +10,7 @@ C13, second half (compact protocol), level 2: the SET of specification-conforman
   * every varint (integers, lengths, sizes, field ids) in any base-128 representation of at most 10 bytes (`VarU`:
     minimal or padded);
   * list / set headers in the short form (size < 15 only) or in the long form (every size) (`ListHdr`);
+  * a bool element / key / value TYPE announced in a list / set / map header as nibble 2 or as nibble 1 (`ElemCode`);
   * field headers in the delta short form (only when `0 < id - previous ≤ 15`) or in the long form (`FieldHdrB`);
   * the fields of a struct in ANY order (`List.Perm` of the record list), each header relative to the id written just
     before it (`Stream`);
@@ -19,7 +20,8 @@ C13, second half (compact protocol), level 2: the SET of specification-conforman
   * recursively in elements, keys, values, field values, pointees.
 
 What has a single form and is written as the specification says: bool elements (`1` / `0`), bool fields (type nibble
-`1` / `2`, no value byte), i8 (one byte), doubles (8 bytes little-endian), the element-type nibbles, the stop byte.
+`1` / `2`, no value byte), i8 (one byte), doubles (8 bytes little-endian), the non-bool element-type nibbles, the stop
+byte.
 
 `Conf` is a recursive predicate on the type (mutual with `ConfFields`, the possible record lists of a struct in
 declaration order). `conf_canonical` (in `ThriftAccept`) shows that the canonical encoding is a member.
